@@ -85,7 +85,10 @@ func RunStress(seed int64, idx int, hostile bool) *Result {
 				case <-time.After(time.Duration(net.rng.Intn(3000)) * time.Microsecond):
 				}
 			}
-			return ctx.Err()
+			if ctx.Err() != nil {
+				return fmt.Errorf("committee contract: request aborted") // its own error, not context.Canceled
+			}
+			return nil
 		}
 	}
 	for _, nd := range net.Nodes {
